@@ -29,7 +29,8 @@ def unhex(l):
     return [float.fromhex(v) for v in l]
 
 
-def window_obj(w):
+def window_obj(w, dense=False):
+    """the window as handed to nitime (`dense`: as handed to matplotlib, which needs an ndarray)"""
     from matplotlib import mlab
     t = w["type"]
     if t in ("default", "hanning"):
@@ -40,23 +41,96 @@ def window_obj(w):
         return lambda x: np.hamming(len(x)) * x
     if t == "array":
         return np.array(unhex(w["vals"]))
+    if t == "list":
+        return np.array(unhex(w["vals"])) if dense else list(unhex(w["vals"]))
     raise ValueError(t)
 
 
 def window_vals(w, nfft):
-    o = window_obj(w)
+    o = window_obj(w, dense=True)
     return np.asarray(o, dtype=float) if np.iterable(o) else np.asarray(o(np.ones(nfft)), dtype=float)
 
 
-def method_of(cfg, with_fs=True):
-    m = {"this_method": "welch", "NFFT": cfg["nfft"]}
+def method_of(cfg, with_fs=True, dense=False):
+    m = {"this_method": "welch"}
+    if cfg.get("nfft_in_method", True):
+        m["NFFT"] = cfg["nfft"]
     if with_fs:
         m["Fs"] = float.fromhex(cfg["fs"])
     if cfg["ovl"] is not None:
         m["n_overlap"] = cfg["ovl"]
     if cfg["window"]["type"] != "default":
-        m["window"] = window_obj(cfg["window"])
+        m["window"] = window_obj(cfg["window"], dense=dense)
     return m
+
+
+def rows_of(cfg, key):
+    """float64 2-d array of cfg[key] ('data' | 'seeds' | 'targets'): literal hex rows, or a small reproducible
+    spec for the large oracle-only cases (values are short dyadics times 2**exp, so scaling is exact)"""
+    spec = cfg.get(key + "_spec")
+    if spec is None:
+        return np.array([unhex(r) for r in cfg[key]], dtype=float)
+    rs = np.random.RandomState(spec["seed"])
+    x = rs.randn(spec["nch"], spec["n"])
+    x = np.round(x * 4) if spec.get("int") else np.round(x * 1024) / 1024
+    x[x == 0] = 1.0
+    for c in range(1, spec["nch"]):
+        x[c] += [0.0, 0.5, 1.0, -0.75][c % 4] * x[0] if not spec.get("int") else (c % 2) * x[0]
+    x[x == 0] = 1.0
+    x = (x + spec.get("offset", 0.0)) * 2.0 ** spec.get("exp", 0)
+    if "rows" in spec:
+        x = x[spec["rows"][0]:spec["rows"][1]]
+    return x
+
+
+def shaped(arr, form):
+    """the same values in another memory layout / dtype"""
+    if form in (None, "C"):
+        return np.ascontiguousarray(arr)
+    if form == "F":
+        return np.asfortranarray(arr)
+    if form == "strided":
+        big = np.full((arr.shape[0], 2 * arr.shape[1]), 7.5) if arr.ndim == 2 else np.full(2 * arr.shape[0], 7.5)
+        big[..., ::2] = arr
+        return big[..., ::2]
+    if form == "int":
+        assert np.all(arr == np.round(arr))
+        return arr.astype(np.int64)
+    raise ValueError(form)
+
+
+def ij_obj(ij, form):
+    if form == "tuple":
+        return tuple(tuple(p) for p in ij)
+    if form == "array":
+        return np.array(ij)
+    if form == "lists":
+        return [list(p) for p in ij]
+    return [tuple(p) for p in ij]
+
+
+def band_idx(f, lb, ub):
+    """the bins of the vector f that lie in [lb, ub] (definition; not nitime's get_bounds)"""
+    f = np.asarray(f, dtype=float)
+    return int(np.sum(f < lb)), (len(f) if ub is None else int(np.sum(f <= ub)))
+
+
+def reference(data, nfft, fs, wv, ovl, pairs, chans):
+    """Dense Welch values straight from matplotlib.mlab.csd (window as array, explicit noverlap = the dense
+    default NFFT // 2, scale_by_freq=True): spectra of `chans`, coherency Pxy / sqrt(Pxx Pyy) of `pairs` with
+    x = row j, y = row i as the dense path orders them, and the bin frequencies k * Fs / NFFT."""
+    from matplotlib import mlab
+    od = ovl if ovl is not None else nfft // 2
+    rows = {c: np.ascontiguousarray(data[c], dtype=float) for c in set(chans) | {v for p in pairs for v in p}}
+    psd = {c: np.asarray(mlab.csd(rows[c], rows[c], nfft, fs, mlab.detrend_none, wv, od, scale_by_freq=True)[0])
+           for c in rows}
+    coh = {}
+    with np.errstate(all="ignore"):
+        for (i, j) in pairs:
+            if (i, j) not in coh:
+                pxy = np.asarray(mlab.csd(rows[j], rows[i], nfft, fs, mlab.detrend_none, wv, od, scale_by_freq=True)[0])
+                coh[(i, j)] = pxy / np.sqrt(psd[i] * psd[j])
+    return np.arange(nfft // 2 + 1) * fs / nfft, psd, coh
 
 
 def band_of(cfg):
@@ -89,17 +163,19 @@ class Obs:
 
 
 def run_cache(cfg):
-    """cache path (functions or SparseCoherenceAnalyzer) and dense path on the same data"""
+    """cache path (functions or SparseCoherenceAnalyzer), nitime's dense path (for K) and the reference"""
     import nitime.algorithms.cohere as ch
-    import nitime.utils as tsu
     from nitime.algorithms.spectral import get_spectra
     from matplotlib import mlab
     o = Obs()
-    data = np.array([unhex(r) for r in cfg["data"]], dtype=float)
-    ij = [tuple(int(v) for v in p) for p in cfg["ij"]]
+    vals = rows_of(cfg, "data")
+    data = shaped(vals, cfg.get("form"))
+    ijl = [tuple(int(v) for v in p) for p in cfg["ij"]]
+    ij = ij_obj(ijl, cfg.get("ij_form"))
     lb, ub = band_of(cfg)
     nfft = cfg["nfft"]
     fs = float.fromhex(cfg["fs"])
+    wide = cfg.get("wide", False)
     o.afreqs = None
     o.an = None
     if cfg["via"] == "analyzer":
@@ -118,51 +194,61 @@ def run_cache(cfg):
         f, _c = ch.cache_fft(data, ij, lb=lb, ub=ub, method=dict(method_of(cfg), Fs=fs),
                              prefer_speed_over_memory=cfg["psm"], scale_by_freq=cfg["sbf"])
     else:
-        f, cache = ch.cache_fft(data, ij, lb=lb, ub=ub, method=method_of(cfg),
-                                prefer_speed_over_memory=cfg["psm"], scale_by_freq=cfg["sbf"])
+        if cfg.get("call") == "pos":
+            f, cache = ch.cache_fft(data, ij, lb, ub, method_of(cfg), cfg["psm"], cfg["sbf"])
+        else:
+            f, cache = ch.cache_fft(data, ij, lb=lb, ub=ub, method=method_of(cfg),
+                                    prefer_speed_over_memory=cfg["psm"], scale_by_freq=cfg["sbf"])
         psd = ch.cache_to_psd(cache, ij)
         coh = ch.cache_to_coherency(cache, ij)
     o.fs = fs
     o.freqs = np.asarray(f, dtype=float)
-    o.lbi, o.ubi = [int(v) for v in tsu.get_bounds(o.freqs, lb, ub)]
+    o.lbi, o.ubi = band_idx(o.freqs, lb, ub)
     o.cache = cache
     o.psd = psd
     o.coh = np.asarray(coh)
     o.rp = np.asarray(ch.cache_to_relative_phase(cache, ij))
     o.nw = int(next(iter(cache["FFT_slices"].values())).shape[0])
-    # dense side
-    md = dict(method_of(cfg), Fs=fs)
-    o.fd, o.fxy = get_spectra(data, dict(md))
-    o.fd2, o.dcoh = ch.coherency(data, dict(md))
-    o.fd = np.asarray(o.fd, dtype=float)
+    # reference (independent of nitime): mlab.csd on the listed pairs / channels
+    wv = window_vals(cfg["window"], nfft)
+    o.rf, o.rpsd, o.rcoh = reference(vals, nfft, fs, wv, cfg["ovl"], ijl, sorted(psd))
+    if wide:
+        return o
+    # nitime's dense side, compared with the model in K
+    md = dict(method_of(cfg, dense=True), Fs=fs)
+    o.fd, o.fxy = get_spectra(vals, dict(md))
+    o.fd2, o.dcoh = ch.coherency(vals, dict(md))
     od = cfg["ovl"] if cfg["ovl"] is not None else nfft // 2
     o.csd = []
     seen = []
-    for (i, j) in ij:
+    for (i, j) in ijl:
         if (i, j) in seen or len(seen) >= 3:
             continue
         seen.append((i, j))
-        p, _f = mlab.csd(data[j], data[i], nfft, fs, mlab.detrend_none, window_obj(cfg["window"]), od,
+        p, _f = mlab.csd(vals[j], vals[i], nfft, fs, mlab.detrend_none, window_obj(cfg["window"], dense=True), od,
                          scale_by_freq=cfg["sbf"])
         o.csd.append((i, j, np.asarray(p)))
     return o
 
 
 def run_seed(cfg):
-    import nitime.algorithms.cohere as ch
     import nitime.utils as tsu
     import nitime.timeseries as nts
     import nitime.analysis as nta
     o = Obs()
-    seeds = np.array([unhex(r) for r in cfg["seeds"]], dtype=float)
-    targets = np.array([unhex(r) for r in cfg["targets"]], dtype=float)
+    seeds = rows_of(cfg, "seeds")
+    targets = rows_of(cfg, "targets")
     lb, ub = band_of(cfg)
     fs = float.fromhex(cfg["fs"])
     sd = seeds if cfg["seed2d"] else seeds[0]
-    S = nts.TimeSeries(sd, sampling_rate=fs)
-    T = nts.TimeSeries(targets, sampling_rate=fs)
-    A = nta.SeedCoherenceAnalyzer(S, T, method=method_of(cfg, with_fs=cfg.get("fs_in_method", True)), lb=lb, ub=ub,
-                                  prefer_speed_over_memory=cfg["psm"], scale_by_freq=cfg["sbf"])
+    S = nts.TimeSeries(shaped(sd, cfg.get("form")), sampling_rate=fs)
+    T = nts.TimeSeries(shaped(targets, cfg.get("form")), sampling_rate=fs)
+    m = method_of(cfg, with_fs=cfg.get("fs_in_method", True))
+    if cfg.get("call") == "pos":
+        A = nta.SeedCoherenceAnalyzer(S, T, m, lb, ub, cfg["psm"], cfg["sbf"])
+    else:
+        A = nta.SeedCoherenceAnalyzer(S, T, method=m, lb=lb, ub=ub,
+                                      prefer_speed_over_memory=cfg["psm"], scale_by_freq=cfg["sbf"])
     o.coh = np.asarray(A.coherency)
     o.afreqs = np.asarray(A.frequencies, dtype=float)
     o.coherence = np.asarray(A.coherence)
@@ -170,11 +256,12 @@ def run_seed(cfg):
     fs = float(A.method["Fs"])
     o.fs = fs
     o.ffull = np.asarray(tsu.get_freqs(fs, cfg["nfft"]), dtype=float)
-    o.lbi, o.ubi = [int(v) for v in tsu.get_bounds(o.ffull, lb, ub)]
-    stacked = np.vstack([seeds, targets])
-    o.fd, o.dcoh = ch.coherency(stacked, dict(method_of(cfg), Fs=fs))
-    o.fd = np.asarray(o.fd, dtype=float)
+    o.lbi, o.ubi = band_idx(o.ffull, lb, ub)
     o.ns, o.nt = seeds.shape[0], targets.shape[0]
+    stacked = np.vstack([seeds, targets])
+    pairs = [(s_, o.ns + t_) for s_ in range(o.ns) for t_ in range(o.nt)]
+    o.rf, _p, rc = reference(stacked, cfg["nfft"], fs, window_vals(cfg["window"], cfg["nfft"]), cfg["ovl"], pairs, [])
+    o.rrows = np.array([[rc[(s_, o.ns + t_)] for t_ in range(o.nt)] for s_ in range(o.ns)])
     return o
 
 
@@ -222,7 +309,7 @@ def cache_coq(cfg, o):
     sl = o.cache["FFT_slices"]
     cj = o.cache["FFT_conj_slices"]
     parts = [common_coq(cfg, o.fs),
-             llit([fvec(r) for r in [unhex(r) for r in cfg["data"]]]),
+             llit([fvec(r) for r in rows_of(cfg, "data")]),
              llit(["(%s, %s)" % (zl(i), zl(j)) for i, j in ij]),
              fvec(o.freqs),
              "None" if o.afreqs is None else "(Some %s)" % fvec(o.afreqs),
@@ -263,8 +350,8 @@ def cache_coq(cfg, o):
 
 def seed_coq(cfg, o):
     parts = [common_coq(cfg, o.fs),
-             llit([fvec(unhex(r)) for r in cfg["seeds"]]), blit(cfg["seed2d"]),
-             llit([fvec(unhex(r)) for r in cfg["targets"]]),
+             llit([fvec(r) for r in rows_of(cfg, "seeds")]), blit(cfg["seed2d"]),
+             llit([fvec(r) for r in rows_of(cfg, "targets")]),
              fvec(o.ffull), fvec(o.afreqs),
              llit([nlit(s) for s in o.coh.shape]), cvec(o.coh)]
     return "(KSeed " + "\n ".join(parts) + ")"
@@ -312,15 +399,15 @@ def oracle_cache(cfg, o):
     ep = "SparseCoherenceAnalyzer" if cfg["via"] == "analyzer" else "cache_fft"
     # frequency vector
     fband = o.freqs[lbi:ubi]
-    if not _close(fband, o.fd[lbi:ubi], scale=abs(o.fs)):
+    if not _close(fband, o.rf[lbi:ubi], scale=abs(o.fs)):
         fails.append(Fail("C09/frequencies/%s" % par, "cache frequency vector differs from the dense (mlab) one: "
-                          + _worst(fband, o.fd[lbi:ubi]), fband.tolist(), o.fd[lbi:ubi].tolist()))
-    if o.afreqs is not None and not _close(o.afreqs, o.fd[lbi:ubi], scale=abs(o.fs)):
+                          + _worst(fband, o.rf[lbi:ubi]), fband.tolist(), o.rf[lbi:ubi].tolist()))
+    if o.afreqs is not None and not _close(o.afreqs, o.rf[lbi:ubi], scale=abs(o.fs)):
         fails.append(Fail("C09/frequencies/%s" % par, "SparseCoherenceAnalyzer.frequencies differs from the dense one: "
-                          + _worst(o.afreqs, o.fd[lbi:ubi]), o.afreqs.tolist(), o.fd[lbi:ubi].tolist()))
+                          + _worst(o.afreqs, o.rf[lbi:ubi]), o.afreqs.tolist(), o.rf[lbi:ubi].tolist()))
     nf = ubi - lbi
     for (i, j) in ij:
-        want = np.asarray(o.dcoh)[i, j, lbi:ubi]
+        want = o.rcoh[(i, j)][lbi:ubi]
         got = o.coh[i, j]
         if not _close(got, want):
             fails.append(Fail("C09/cache_to_coherency/%s" % par, "%s coherency of pair (%d,%d) differs from dense: %s"
@@ -336,7 +423,7 @@ def oracle_cache(cfg, o):
                 fails.append(Fail("C09/SparseCoherenceAnalyzer.relative_phases", "relative phase of pair (%d,%d) differs from dense" % (i, j)))
                 break
     for k in sorted(o.psd):
-        want = np.asarray(o.fxy)[k, k, lbi:ubi]
+        want = o.rpsd[k][lbi:ubi]
         got = np.asarray(o.psd[k]).ravel()
         if got.shape != (nf,) or not _close(got, want, scale=float(np.max(np.abs(want))) if nf else 1.0):
             key = "C09/cache_to_psd/scale_by_freq=False" if not cfg["sbf"] else "C09/cache_to_psd/%s" % par
@@ -344,7 +431,7 @@ def oracle_cache(cfg, o):
                               % (ep, k, _worst(got, want)), str(got), str(want)))
             break
     for (i, j) in ij:
-        want = np.asarray(o.dcoh)[i, j, lbi:ubi]
+        want = o.rcoh[(i, j)][lbi:ubi]
         m = np.abs(want) > 1e-6
         got = np.asarray(o.rp)[i, j].real
         if not _angle_close(got[m], np.angle(want)[m]):
@@ -360,10 +447,10 @@ def oracle_seed(cfg, o):
     lbi, ubi = o.lbi, o.ubi
     nf = ubi - lbi
     par = "odd-NFFT" if cfg["nfft"] % 2 else "even-NFFT"
-    if not _close(o.afreqs, o.fd[lbi:ubi], scale=abs(o.fs)):
+    if not _close(o.afreqs, o.rf[lbi:ubi], scale=abs(o.fs)):
         fails.append(Fail("C09/frequencies/%s" % par, "SeedCoherenceAnalyzer.frequencies differs from the dense one: "
-                          + _worst(o.afreqs, o.fd[lbi:ubi]), o.afreqs.tolist(), o.fd[lbi:ubi].tolist()))
-    want = np.asarray(o.dcoh)[:o.ns, o.ns:, lbi:ubi]
+                          + _worst(o.afreqs, o.rf[lbi:ubi]), o.afreqs.tolist(), o.rf[lbi:ubi].tolist()))
+    want = o.rrows[:, :, lbi:ubi]
     if o.coh.size != want.size:
         fails.append(Fail("C09/SeedCoherenceAnalyzer/shape", "coherency has %s values, dense rows have %s"
                           % (o.coh.shape, want.shape)))
@@ -384,8 +471,7 @@ def oracle_seed(cfg, o):
 def oracle_zero_pad(cfg):
     """utils.zero_pad: data kept in place, zeros appended on the last axis, long data untouched"""
     import nitime.utils as tsu
-    rows = cfg["data"] if cfg["kind"] == "cache" else cfg["targets"]
-    data = np.array([unhex(r) for r in rows], dtype=float)
+    data = rows_of(cfg, "data" if cfg["kind"] == "cache" else "targets")
     nfft = cfg["nfft"]
     got = np.asarray(tsu.zero_pad(data.copy(), nfft))
     n = data.shape[1]
@@ -434,7 +520,7 @@ def gen_window(rng, nfft):
         return {"type": "hamming_fn"}
     if r < 0.85:
         return {"type": "array", "vals": [fh(round(rng.uniform(0.1, 1.5) * 32) / 32) for _ in range(nfft)]}
-    return {"type": "array", "vals": [fh(rng.uniform(-1.0, 1.5)) for _ in range(nfft)]}
+    return {"type": rng.choice(["array", "list"]), "vals": [fh(rng.uniform(-1.0, 1.5)) for _ in range(nfft)]}
 
 
 def gen_common(rng, ctx_quick, maxwin):
@@ -495,7 +581,7 @@ def gen_ij(rng, nch):
     return [list(p) for p in ij]
 
 
-def gen_cfg(rng, quick):
+def gen_base_cfg(rng, quick):
     maxwin = 8 if quick else 14
     if rng.random() < 0.25:
         c, n = gen_common(rng, quick, maxwin)
@@ -519,14 +605,94 @@ def gen_cfg(rng, quick):
     return c
 
 
+def gen_cfg(rng, quick):
+    """a K-sized configuration, in one of the alternative forms the entry points accept"""
+    c = gen_base_cfg(rng, quick)
+    c["form"] = rng.choice(["C", "C", "F", "strided", "int"])
+    if c["form"] == "int":
+        for key in ("data", "seeds", "targets"):
+            if key in c:
+                c[key] = [[fh(round(float.fromhex(v) * 4) or 1.0) for v in r] for r in c[key]]
+    c["ij_form"] = rng.choice(["list", "tuple", "array", "lists"])
+    c["call"] = rng.choice(["kw", "pos"])
+    return c
+
+
+WIDE_N = [1025, 2049, 4097, 1000, 509, 127, 64, 65, 1024, 8193, 3001, 16385, 20011]
+WIDE_NFFT = [64, 64, 128, 255, 256, 257, 512, 1024, 1025, 33, 63, 100]
+
+
+def gen_wide_cfg(rng, quick):
+    """Oracle-only configuration (never evaluated in Coq): sizes up to tens of thousands of samples incl. lengths
+    just above powers of two and primes, NFFT up to 1025 of both parities (NFFT may be left to its default 64),
+    up to thousands of windows, up to 12 channels, data scaled by 2**-60 .. 2**40 with offsets, every form."""
+    nfft = rng.choice(WIDE_NFFT)
+    r = rng.random()
+    if r < 0.15:
+        ovl, n = nfft - 1, nfft + rng.choice([700, 1500, 2049 - nfft if nfft < 1500 else 900])   # very many windows
+    elif r < 0.5:
+        ovl, n = None, rng.choice(WIDE_N)
+    else:
+        ovl, n = rng.choice([0, 1, nfft // 2, nfft // 3, nfft - 2]), rng.choice(WIDE_N)
+    if rng.random() < 0.12:
+        n = rng.choice([nfft - 1, nfft, nfft + 1, max(2, nfft // 3)])
+    if not quick and rng.random() < 0.2:
+        n = rng.choice([32769, 65537, 50021])
+    fs = rng.choice([1.0, 2.0, 0.5, 2 * math.pi, 10.0, 1000.0, 0.001, 44100.0])
+    r = rng.random()
+    if r < 0.4:
+        lb, ub = 0.0, None
+    else:
+        a, b = sorted([rng.uniform(0, fs / 2), rng.uniform(0, fs / 2)])
+        k = rng.randint(0, nfft // 2)
+        lb, ub = rng.choice([a, k * fs / nfft, 0.0]), rng.choice([b, None, fs / 2, (nfft // 2) * fs / nfft])
+        if ub is not None and ub < lb:
+            lb, ub = ub, lb
+    wt = rng.choice(["default", "default", "hanning", "none", "hamming_fn", "array", "list"])
+    w = {"type": wt}
+    if wt in ("array", "list"):
+        wrs = np.random.RandomState(rng.randint(0, 10 ** 6))
+        w["vals"] = [fh(v) for v in np.round(wrs.uniform(0.1, 1.5, nfft) * 64) / 64]
+    form = rng.choice(["C", "F", "strided", "int"])
+    exp = rng.choice([-60, -40, -20, -8, 0, 0, 0, 7, 20, 40])
+    if form == "int":
+        exp = abs(exp) if abs(exp) <= 40 else 40          # int64 data: integer values only
+    spec = lambda nch: {"seed": rng.randint(0, 10 ** 6), "nch": nch, "n": n, "exp": exp, "int": form == "int",
+                        "offset": rng.choice([0.0, 0.0, 1.0, -3.0, 100.0])}
+    c = {"wide": True, "nfft": nfft, "nfft_in_method": not (nfft == 64 and rng.random() < 0.6), "ovl": ovl,
+         "fs": fh(fs), "sbf": rng.random() < 0.6, "psm": rng.random() < 0.5, "lb": fh(lb),
+         "ub": None if ub is None else fh(ub), "window": w, "form": form,
+         "ij_form": rng.choice(["list", "tuple", "array", "lists"]), "call": rng.choice(["kw", "pos"]),
+         "fs_in_method": True}
+    if rng.random() < 0.25:
+        ns = rng.choice([1, 2, 4])
+        sp = spec(ns + rng.choice([1, 3, 9]))
+        c.update({"kind": "seed", "seed2d": ns > 1 or rng.random() < 0.5})
+        # seeds and targets are rows of one generated block
+        c["seeds_spec"] = dict(sp, rows=[0, ns])
+        c["targets_spec"] = dict(sp, rows=[ns, sp["nch"]])
+        return c
+    nch = rng.choice([2, 3, 5, 8, 12])
+    c.update({"kind": "cache", "via": "analyzer" if rng.random() < 0.3 else "func", "data_spec": spec(nch),
+              "ij": gen_ij(rng, nch) if nch <= 5 else
+              [[rng.randrange(nch), rng.randrange(nch)] for _ in range(rng.randint(3, 12))] + [[nch - 1, 0], [0, 0]]})
+    if c["via"] == "analyzer":
+        c["fs"] = fh(rng.choice([1.0, 2.0, 0.5, 4.0, 10.0]))
+    return c
+
+
 def klass(cfg, o):
-    n = len(cfg["data"][0]) if cfg["kind"] == "cache" else len(cfg["targets"][0])
+    n = rows_of(cfg, "data" if cfg["kind"] == "cache" else "targets").shape[1]
     nfft = cfg["nfft"]
     rel = "short" if n < nfft else ("equal" if n == nfft else "long")
     band = "full" if (cfg["ub"] is None and float.fromhex(cfg["lb"]) == 0.0) else "band"
     k = cfg["kind"] if cfg["kind"] == "seed" else cfg["via"]
     if cfg["kind"] == "seed":
         k += "2d" if cfg["seed2d"] else "1d"
+    if cfg.get("wide"):
+        sp = cfg.get("data_spec") or cfg.get("targets_spec")
+        return "wide/%s/n<=%d/nfft<=%d/%s/2^%d/%s" % (k, 1 << max(n - 1, 1).bit_length(), 1 << max(nfft - 1, 1).bit_length(),
+                                                     rel, sp["exp"], cfg["form"])
     return "%s/%s/%s/%s/%s/%s/%s/%s" % (k, "odd" if nfft % 2 else "even", rel, band,
                                       "psm" if cfg["psm"] else "mem", "sbf" if cfg["sbf"] else "nosbf",
                                       "ovl" if cfg["ovl"] is not None else "dflt", cfg["window"]["type"])
@@ -535,7 +701,7 @@ def klass(cfg, o):
 def make_case(cfg):
     try:
         o = run_cfg(cfg)
-        coq = seed_coq(cfg, o) if cfg["kind"] == "seed" else cache_coq(cfg, o)
+        coq = "" if cfg.get("wide") else (seed_coq(cfg, o) if cfg["kind"] == "seed" else cache_coq(cfg, o))
         c = Case(coq, {"cfg": cfg}, klass(cfg, o), nontrivial=True)
         c.obs = o
         c.err = None
@@ -593,16 +759,18 @@ def retry_killed(ctx, kbad, shard):
 def run(ctx):
     core.import_nitime()
     ctx.check_props()
-    n = int(os.environ.get("C09_CASES") or ctx.scale(320, 1500))      # C09_CASES: development knob only
+    n = int(os.environ.get("C09_CASES") or ctx.scale(280, 1500))      # C09_CASES: development knob only
+    nwide = int(os.environ.get("C09_WIDE") or ctx.scale(36, 400))
     cfgs = corpus_cfgs() + [gen_cfg(ctx.rng, ctx.quick) for _ in range(n)]
+    cfgs += [gen_wide_cfg(ctx.rng, ctx.quick) for _ in range(nwide)]          # oracle only: the whole size / magnitude range
     cases = [make_case(c) for c in cfgs]
-    kcases = [c for c in cases if c.err is None]
+    kcases = [c for c in cases if c.err is None and c.coq]
     kbad = ctx.check_cases("K", HEADER, kcases, "check", shard=ctx.scale(20, 64), timeout=ctx.scale(2400, 3600),
                            case_type="kcase")
     kbad = retry_killed(ctx, kbad, ctx.scale(20, 64))
     bad = {id(kcases[i]) for i in kbad}
     for c in cases:
-        if c.err is not None:
+        if c.err is not None or not c.coq:
             ctx.count_case(c)
     # the search: disagreeing cases first
     order = sorted(range(len(cases)), key=lambda i: 0 if id(cases[i]) in bad else 1)
@@ -617,7 +785,13 @@ def run(ctx):
                          "reversed pairs), NFFT of both parities, explicit and default overlap, window default / function / "
                          "array, data shorter / equal / longer than NFFT, full and band-limited [lb, ub] incl. bounds on grid "
                          "points, both memory settings, scale_by_freq both, functions and Sparse/SeedCoherenceAnalyzer, 1-d and "
-                         "2-d seeds; every case is non-trivial (random data, non-zero channels)")
+                         "2-d seeds, data C / Fortran / strided / int64, ij as list / tuple / array / list of lists, window also as a "
+                         "python list, keyword and positional calls; every case is non-trivial (random data, non-zero channels). "
+                         "Plus oracle-only 'wide' cases (not evaluated in Coq): lengths 21 .. 65537 incl. 1025 / 2049 / 4097 / "
+                         "8193 / 16385 and primes, NFFT 33 .. 1025 of both parities or left to its default, up to thousands of "
+                         "windows, up to 12 channels, data scaled by 2^-60 .. 2^40 with offsets. The search oracle takes its "
+                         "reference from matplotlib.mlab.csd directly (not from nitime's get_spectra / coherency) and its band "
+                         "indices from numpy, with tolerances relative to the data scale")
     return ctx.finish(
         trusted=["scipy.fftpack.fft / np.fft.fft compute the DFT (the model evaluates the DFT from a float twiddle table "
                  "exp(-2 pi i k t/NFFT) supplied by the harness)",
